@@ -29,6 +29,30 @@ pub enum Source {
     /// in the input syntax or as the library itself prints the parsed condition; f is the whole condition of a, the
     /// atom X the whole condition of b (in both fact orders), neg(a) the condition of X
     Spelled,
+    /// three statements whose conditions are written literally as one of 12 short formulas (atoms, negated atoms,
+    /// constants, and / or / imp of two atoms): all 12^3 combinations - the writers of the other families never write a
+    /// bare atom or a bare negation
+    Literal3,
+}
+
+pub const LITERALS: usize = 12;
+
+fn literal(k: usize) -> Fm {
+    let a = Fm::Atom;
+    match k % LITERALS {
+        0 => a(0),
+        1 => a(1),
+        2 => a(2),
+        3 => Fm::not(a(0)),
+        4 => Fm::not(a(1)),
+        5 => Fm::not(a(2)),
+        6 => Fm::Top,
+        7 => Fm::Bot,
+        8 => Fm::bin(0, a(0), a(1)),
+        9 => Fm::bin(1, a(1), a(2)),
+        10 => Fm::bin(2, Fm::not(a(0)), Fm::not(a(2))),
+        _ => Fm::bin(0, a(0), Fm::not(a(0))),
+    }
 }
 
 /// the fixed formulas over the two atoms a and b (every connective in every argument position)
@@ -103,6 +127,7 @@ impl Source {
             }
             Source::Sparse(_, count) => format!("SP: {} large sparse ADFs (70/130/270 statements, open ring at positions beyond 63 / 255)", count),
             Source::Spelled => "labels that spell a formula of the same ADF (input syntax and the library's own rendering)".to_string(),
+            Source::Literal3 => "Lit(3): three statements x 12 literally written short conditions".to_string(),
             Source::Ring(n, first, step) => {
                 if *step == 1 {
                     format!("R({}): all ring ADFs with {} statements", n, n)
@@ -118,7 +143,7 @@ impl Source {
             Source::Formulas(..) => 2,
             Source::Ring(n, _, _) | Source::Tern(n, _, _) => *n,
             Source::Sparse(..) => 270,
-            Source::Spelled => 3,
+            Source::Spelled | Source::Literal3 => 3,
         }
     }
     pub fn size(&self) -> u64 {
@@ -128,6 +153,7 @@ impl Source {
             Source::Formulas(_, l) => l.len() as u64,
             Source::Sparse(_, count) => *count,
             Source::Spelled => spelled_size(),
+            Source::Literal3 => (LITERALS as u64).pow(3),
             Source::Tern(n, first, step) => {
                 let raw = crate::mid::tern_size(*n);
                 if *first >= raw {
@@ -218,6 +244,12 @@ impl Source {
                 let text = l.text(Some(&perm), ("", "", ""));
                 Case { tts: vec![], text, fms: l.conds.clone(), sorting: (k % 3) as usize, labels: l.labels.clone(), formulas: Some(std::sync::Arc::new(l)) }
             }
+            Source::Literal3 => {
+                let fms: Vec<Fm> = vec![literal(k as usize % LITERALS), literal(k as usize / LITERALS % LITERALS), literal(k as usize / (LITERALS * LITERALS))];
+                let tts: Vec<TT> = fms.iter().map(|g| g.tt(3)).collect();
+                let text = adf_text_fm(&fms, &names(3));
+                Case { labels: names(3), tts, text, fms, sorting: 0, formulas: None }
+            }
             Source::Spelled => {
                 let pf = spelled_formulas();
                 let f = pf[(k / 4) as usize].clone();
@@ -269,6 +301,7 @@ pub fn standard_sources(run: &Run, with_formulas: bool) -> Vec<Source> {
         Source::FamPresented(fam_a(2)),
         Source::FamPresented(fam_f(3, 2)),
         Source::Spelled,
+        Source::Literal3,
     ];
     if with_formulas {
         let l = if run.tier == Tier::Quick {
